@@ -203,6 +203,12 @@ class RedfieldRelaxationTensor(RelaxationTensor):
             else:
                 S1 = inv
 
+            if numpy.iscomplexobj(SS):
+                # a unitary (complex) transformation leads out of real numbers
+                for nm in ("_Lm", "_Ld", "_Km"):
+                    arr = getattr(self, nm)
+                    if not numpy.iscomplexobj(arr):
+                        setattr(self, nm, arr.astype(numpy.complex128))
             for m in range(self._Lm.shape[0]):
                 self._Lm[m,:,:] = numpy.dot(S1,numpy.dot(self._Lm[m,:,:], SS))  
                 self._Ld[m,:,:] = numpy.dot(S1,numpy.dot(self._Ld[m,:,:], SS))
